@@ -552,7 +552,9 @@ def rand_float(rng):
 def rand_decimal(rng):
     r = rng.random()
     if r < 0.1:
-        return Decimal(rng.choice(["0", "-0", "0E+5", "0E-5", "-0.000", "1E+5", "1E-5", "Infinity", "-Infinity", "NaN", "-NaN", "NaN12", "sNaN"]))
+        return Decimal(rng.choice(["0", "-0", "0E+5", "0E-5", "-0.000", "-0E+3", "1E+5", "1E-5", "Infinity", "-Infinity", "NaN", "-NaN", "NaN12", "sNaN",
+                                   "-sNaN", "sNaN0012", "-NaN900", "NaN" + str(rng.randint(0, 10**rng.choice([1, 3, 20]))),
+                                   "sNaN" + str(rng.randint(1, 999))]))
     sign = rng.choice([0, 0, 1])
     nd = rng.choice([1, 1, 2, 3, 5, 12, 30])
     digits = [rng.randint(1, 9)] + [rng.randint(0, 9) for _ in range(nd - 1)]
@@ -1002,6 +1004,7 @@ DT_FORMATS = [
     "%Y-%m-%d", "%H:%M:%S", "%Y-%m-%dT%H:%M:%S", "%Y-%m-%dT%H:%M:%S.%f", "%d/%m/%Y", "%Y%m%d", "%H%M%S%f", "%d.%m.%Y %H:%M",
     "%m%d", "%Y", "%H:%M:%S.%f", "%S", "%Y-%m-%d %H:%M:%S", "%%%Y", "%d %m  %Y", "T%H", "%Y-%m-%dZ", "%Y-%m-%d\t%H", "(%Y)[%m]", "%m-%d", "%M", "%f",
     "%H.%M", "%Y+%m", "%d%m%Y", "%Y %m %d", " %Y", "%Y ", "x%dx",
+    "%%Y", "%%Y-%m-%d", "%%%%Y", "%%%%%Y", "%Y%%Y", "%%%Y%%", "%%Y%Y", "Y%Y", "%d%m%Y%H%M%S%f", "%H%%%M",
 ]
 DT_BAD_FORMATS = ["%Q", "%", "%Y%Y", "%Y-%", "% Y", "%.", "", "%Y-%m-%d%", "%k", "%-d", "%é", "%d%d"]
 DT_HAND = [
@@ -1034,7 +1037,7 @@ def rand_dt_format(rng):
         return rng.choice(DT_BAD_FORMATS)
     dirs = ["%Y", "%m", "%d", "%H", "%M", "%S", "%f", "%%"]
     rng.shuffle(dirs)
-    lits = ["-", ":", "T", " ", "/", ".", "  ", "", "", "", "x", "1", "(", "+", "[", "Z"]
+    lits = ["-", ":", "T", " ", "/", ".", "  ", "", "", "", "x", "1", "(", "+", "[", "Z", "Y", "%%", "%%Y"]
     out = rng.choice(lits)
     for d in dirs[: rng.randint(0, 6)]:
         out += d + rng.choice(lits)
@@ -1232,7 +1235,18 @@ def gen_strptime(rng, tier):
             yield {"s": c["s"], "fmt": c["kw"]["format"]}
 
 
+PCT_Y_FORMATS = ["%Y", "%%Y", "%%%Y", "%%%%Y", "%%%%%Y", "%Y%%", "%%Y%Y", "%Y%%Y", "Y%Y", "%Y-%m-%d", "%d/%m/%Y", "%%%Y-%m", "%m%%Y%d", "%Y%m%d"]
+
+
 def gen_strftime(rng, tier):
+    for f in PCT_Y_FORMATS:
+        for y in (1, 9, 10, 99, 100, 999, 1000, 2024, 9999):
+            yield {"v": [y, 2, 3, 4, 5, 6, 7], "fmt": f}
+    for _ in range(400 if tier == "quick" else 8000):
+        d = rand_py_dt(rng, "datetime")
+        f = rng.choice(PCT_Y_FORMATS) if rng.random() < 0.3 else rand_dt_format(rng)
+        if fmt_ser_supported(f):
+            yield {"v": [d.year, d.month, d.day, d.hour, d.minute, d.second, d.microsecond], "fmt": f}
     for c in gen_ser_round_d(rng, tier):
         v = c["v"]
         if c["kw"]["format"] is None or v["t"] not in ("pydate", "pytime", "pydatetime"):
@@ -1263,6 +1277,10 @@ def classify_de(a, o):
 def classify_ser(a, o):
     v = a["v"]
     k = v["t"] + (":" + v["k"] if v["t"] in ("bytes", "dec") else "")
+    if v["t"] == "dec" and v["k"] == "fin":
+        k += (":exp>0" if v["exp"] > 0 else ":exp<0" if v["exp"] < 0 else ":exp0") + (":-0" if v["neg"] and v["coeff"] == 0 else "")
+    if v["t"] == "dec" and v["k"] == "nan":
+        k += (":s" if v["sig"] else "") + (":payload" if v["diag"] else "")
     if v["t"] == "qname":
         k += ":map" if a["kw"]["ns_map"] is not None else ":nomap"
     if v["t"] == "float":
@@ -1299,7 +1317,8 @@ def classify_text_split(a, o):
 
 def classify_strftime(a, o):
     ds = dt_directives(a["fmt"])
-    return f"dirs{min(len(ds), 4)}" + (":Y<1000" if "Y" in ds and a["v"][0] < 1000 else "") + (":f" if "f" in ds else "")
+    return (f"dirs{min(len(ds), 4)}" + (":Y<1000" if "Y" in ds and a["v"][0] < 1000 else "") + (":f" if "f" in ds else "")
+            + (":%%Y" if "%%Y" in a["fmt"] else ":%%" if "%%" in a["fmt"] else "") + ("->err" if "err" in o else ""))
 
 
 def classify_float_lit(a, o):
@@ -1731,7 +1750,9 @@ def oracle_roundtrip(a):
     if isinstance(val, float) and math.isnan(val):
         good = isinstance(back, float) and math.isnan(back)
     elif isinstance(val, Decimal) and val.is_nan():
-        good = back.is_nan()
+        good = type(back) is Decimal and back.as_tuple() == val.as_tuple()  # sign, signaling flag and payload (decimal_nan_rt)
+    elif isinstance(val, Decimal):
+        good = type(back) is Decimal and back == val and back.is_signed() == val.is_signed()  # -0 stays -0 (decimal_fin_rt)
     elif isinstance(val, float):
         good = back == val and math.copysign(1, back) == math.copysign(1, val)
     elif isinstance(val, QName):
